@@ -103,6 +103,7 @@ Definition pq_make_room (q : pq) (size : Z) : option pq :=
   if window <? size then None
   else if contig <? size then
     if window - contig <? size then None
+    else if q_mcap q - pq_meta_len q <? 2 then None      (* padding and packet need one slot each *)
     else if pq_is_full q then None                       (* metadata_ring.enqueue_one()? *)
     else Some (fst (pq_ring_enqueue_many (pq_push q (it_padding contig)) contig))
   else Some q.
@@ -124,12 +125,11 @@ Definition pq_enqueue (q : pq) (size : Z) (h : dmeta) (data : list Z) : outcome 
           else Ok (pq_push q2 (it_packet size h data), true)
     end.
 
-(* enqueue_with_infallible(max_size, header, f) where f writes [data] and returns its length.
-   No clear-when-empty on this path (the ring's own enqueue_many_with resets read_at only
-   after the windows have been computed). *)
+(* enqueue_with_infallible(max_size, header, f) where f writes [data] and returns its length. *)
 Definition pq_enqueue_with (q : pq) (max_size : Z) (h : dmeta) (data : list Z) : outcome (pq * bool) :=
   if (q_pcap q <? max_size) || pq_is_full q then Ok (q, false)
   else
+    let q := if q_len q =? 0 then pq_ring_clear q else q in
     match pq_make_room q max_size with
     | None => Ok (q, false)
     | Some q1 =>
